@@ -22,6 +22,10 @@ type BankKnobs struct {
 	PInfo      int
 	PInfoShare int
 	PFaultKind int
+	// NoInvokeEK: invoked functions never fail with an error that wraps a
+	// foreign dig.Error (C19: whether such an error "can be visualized" is
+	// not decidable from the error value alone - unspecified zone)
+	NoInvokeEK bool
 	PFault     int
 	PPanic     int
 	PRepeat    int // allow a second instance of an already used entry (same code pointer)
@@ -294,6 +298,9 @@ func GenBankCase(t *rapid.T, bk BankKnobs) *Case {
 			f := BankFn(i, g.nextID+1)
 			g.nextID++
 			g.decorate(f)
+			if bk.NoInvokeEK {
+				f.EK = 0
+			}
 			op := Op{K: OpInvoke, S: s, F: f}
 			if g.pct(bk.PInfo, "info") {
 				op.O = &Opts{Info: true, InfoSlot: g.infoSlot()}
